@@ -19,6 +19,7 @@ def plan_items(tier, seed, d3_mod_quick=64, groups_thorough=True):
     items = [("d1",)]
     items += [("d2", i) for i in range(A.N)]
     items += [("wrap1", w) for w in A.WRAPPERS]
+    items += [("objcore", t, r) for t in (0, 1) for r in range(5)]
     meta = {"atoms": A.N, "leaves": len(A.LEAVES), "values": len(VAL.V), "wrappers": len(A.WRAPPERS), "depth_complete": 2}
     if tier == "quick":
         mod = d3_mod_quick
@@ -64,6 +65,20 @@ def expand(item):
                 continue
             for st in A.depth3_from(i, j, pool):
                 yield ("s",) + st, A.schema_of(st), VAL.V, 3
+    elif kind == "objcore":
+        # full product of the object-core keywords (depth <= 5): type x required x properties x
+        # patternProperties x additionalProperties -- the interaction the typed-object parser restructures
+        _, typed, ri = item
+        by = lambda kw: [a["i"] for a in A.ATOMS if a["kw"] == kw]
+        reqs = [None] + by("required")
+        tobj = [a["i"] for a in A.ATOMS if a["frag"] == A.OBJ][0]
+        for p in [None] + by("properties"):
+            for pp in [None] + by("patternProperties"):
+                for ap in [None] + by("additionalProperties"):
+                    st = tuple(x for x in ((tobj if typed else None), reqs[ri], p, pp, ap) if x is not None)
+                    if len(st) <= 3 and not typed:
+                        pass  # also covered by d2/d3 slices; harmless duplicate
+                    yield ("s",) + st, A.schema_of(st), VAL.V, len(st)
     elif kind == "wrap1":
         w = item[1]
         vals = VAL.lift(A.lift_position(w))
